@@ -1,8 +1,155 @@
-"""C03 -- contracts (proof part under construction) + bounded stand-in."""
+"""C03 -- all backends of a hash agree and every advertised backend works."""
+import z3
+
+from contracts.trusted import may_fail
+from pyvc.contract import Bool, Const, Contract, Int, NoneT, Obj, Str, Union
 from pyvc.runner import Bounded
+from pyvc.values import SBool, SDict, SObj, SStr, SStub
 
 LEVEL = "other"
-EXPLANATION = "bounded stand-in only so far: the contracts of this property are checked on the real functions over the stated finite domains (see coverage.bounded); nothing is counted as proved."
-ASSUMPTIONS = []
-CONTRACTS = []
-BOUNDED = [Bounded("c03", "harness/c03.py", descr="see harness docstring", timeout=900)]
+H = "passlib/utils/handlers.py"
+EXPLANATION = (
+    "Agreement of libcrypt / OpenSSL / bcrypt-C with the Python code is foreign code and is decided by the bounded "
+    "stand-in (every ordered pair of loadable backends on enumerated inputs, switching sequences, independent oracles). "
+    "Proved part: the backend state machine of BackendMixin (set_backend for a named backend, has_backend, "
+    "_set_backend) from its real source with the loader free to succeed, report 'not available' or raise: after a "
+    "successful non-dry set_backend(name) the active backend is name; a dry run (has_backend) leaves the active "
+    "backend untouched; _pending_backend / _pending_dry_run are restored on EVERY exit path including exceptional ones; "
+    "an unavailable backend raises MissingBackendError, an unknown name a ValueError; a loader returning neither True "
+    "nor False is an internal error (excluded by the loaders' own contract)."
+)
+ASSUMPTIONS = [
+    "loaders return True / False or raise MissingBackendError / PasslibSecurityError (each _load_backend_* body ends in _finalize_backend_mixin or an import probe)",
+    "sequential execution: the global backend lock is a no-op",
+]
+
+
+def _setup(it, args):
+    cls = args["cls"]
+    active = Union(NoneT(), Const("os_crypt"), Const("builtin")).make(it, "active_backend")
+    cls.fields.update({"__backend": active, "_BackendMixin__backend": active, "backends": ("os_crypt", "builtin"), "_pending_backend": Union(NoneT(), Const("builtin")).make(it, "pending0"),
+                       "_pending_dry_run": Bool().make(it, "pending_dry0"), "name": "handler", "_no_backend_suggestion": None})
+    outcome = {}
+
+    def loader(it2, a, k):
+        it2.run.calls.append(("loader", ()))
+        outcome["name"] = k.get("name")
+        outcome["dryrun"] = k.get("dryrun")
+        may_fail(it2, "MissingBackendError", "loader")
+        may_fail(it2, "PasslibSecurityError", "loader.sec")
+        ok = SBool(z3.Bool("loader_ok"))
+        return ok
+
+    cls.fields["_get_backend_loader"] = SStub(lambda it2, a, k: SStub(loader, "backend loader"), "_get_backend_loader")
+    it.run.ghost.update({"active0": active, "pending0": cls.fields["_pending_backend"], "dry0": cls.fields["_pending_dry_run"], "outcome": outcome})
+    return {"loader_ok": SBool(z3.Bool("loader_ok")), "active0": active}
+
+
+def _restored(it, env):
+    cls = env.lookup("cls")
+    g = it.run.ghost
+    return z3.And(it.to_zbool(it.truth(it.compare("Is", cls.fields["_pending_backend"], g["pending0"])) if False else it.to_zbool(it.truth(it.cmp_vals("==", cls.fields["_pending_backend"], g["pending0"])))),
+                  it.to_zbool(it.truth(it.cmp_vals("==", cls.fields["_pending_dry_run"], g["dry0"]))))
+
+
+def _active_is(expr):
+    def f(it, env):
+        cls = env.lookup("cls")
+        return it.truth(it.cmp_vals("==", cls.fields["__backend"], it.spec_eval(expr, env)))
+
+    return f
+
+
+def _active_unchanged(it, env):
+    cls = env.lookup("cls")
+    return it.truth(it.cmp_vals("==", cls.fields["__backend"], it.run.ghost["active0"]))
+
+
+G = {"_backend_lock": SObj("lock"), "accepts_keyword": SStub(lambda it, a, k: True, "accepts_keyword")}
+NAME = Union(Const("os_crypt"), Const("builtin"), Const("nonexistent"))
+
+CONTRACTS = [
+    Contract(
+        "BackendMixin.set_backend[named]", f"{H}::BackendMixin.set_backend",
+        params={"cls": Obj(cls=(H, "BackendMixin"), is_class=True), "name": NAME, "dryrun": Bool()},
+        setup=_setup, globals=G,
+        raises={"MissingBackendError": _restored, "PasslibSecurityError": _restored, "ValueError": lambda it, env: z3.And(it.to_zbool(it.truth(it.cmp_vals("==", env.lookup("name"), "nonexistent"))), _restored(it, env)),
+                "AssertionError": lambda it, env: False},
+        requires=["loader_ok"],  # loaders return True or False; False is covered by the next contract
+        ensures=[
+            ("pending markers restored", _restored),
+            ("result is the requested name", "result == name"),
+            ("after a non-dry switch the active backend is the requested one", lambda it, env: z3.Implies(z3.Not(it.to_zbool(it.truth(env.lookup("dryrun")))), it.to_zbool(_active_is("name")(it, env)))),
+            ("a dry run leaves the active backend untouched", lambda it, env: z3.Implies(it.to_zbool(it.truth(env.lookup("dryrun"))), it.to_zbool(_active_unchanged(it, env)))),
+        ],
+        descr="named backend; loader may raise MissingBackendError / PasslibSecurityError; any previous active backend",
+    ),
+    Contract(
+        "BackendMixin.set_backend[loader reports unavailable]", f"{H}::BackendMixin.set_backend",
+        params={"cls": Obj(cls=(H, "BackendMixin"), is_class=True), "name": Union(Const("os_crypt"), Const("builtin")), "dryrun": Bool()},
+        setup=_setup, globals=G,
+        requires=["not loader_ok", "active0 != name"],
+        raises={"MissingBackendError": lambda it, env: z3.And(_restored(it, env), it.to_zbool(_active_unchanged(it, env))), "PasslibSecurityError": lambda it, env: z3.And(_restored(it, env), it.to_zbool(_active_unchanged(it, env)))},
+        ensures=[("an unavailable backend is never installed", "False")],
+        descr="loader returns False",
+    ),
+    Contract(
+        "BackendMixin.has_backend", f"{H}::BackendMixin.has_backend",
+        params={"cls": Obj(cls=(H, "BackendMixin"), is_class=True), "name": Union(Const("os_crypt"), Const("builtin"))},
+        setup=_setup, globals=G,
+        ensures=[
+            ("has_backend never changes the active backend (dry run)", _active_unchanged),
+            ("pending markers restored", _restored),
+            ("False when the loader reports the backend unavailable", "implies(not loader_ok and active0 != name, result is False)"),
+            ("the loader, if consulted, was asked for a dry run", lambda it, env: True if it.run.ghost["outcome"].get("dryrun") is None else it.truth(it.run.ghost["outcome"]["dryrun"])),
+        ],
+        raises={"AssertionError": lambda it, env: False},
+        descr="any loader outcome",
+    ),
+]
+
+BOUNDED = [Bounded("c03", "harness/c03.py", descr="every ordered pair of loadable backends, switching sequences, independent oracles", timeout=900)]
+
+MUTANTS = [
+    ("set_backend: pending markers not restored on failure", H, "            try:\n                cls._pending_backend = name\n                cls._pending_dry_run = dryrun\n                cls._set_backend(name, dryrun)\n            finally:\n                cls._pending_backend, cls._pending_dry_run = orig\n", "            cls._pending_backend = name\n            cls._pending_dry_run = dryrun\n            cls._set_backend(name, dryrun)\n            cls._pending_backend, cls._pending_dry_run = orig\n", "refute"),
+    ("set_backend: dry run switches the active backend", H, "            if not dryrun:\n                cls.__backend = name\n            return name", "            cls.__backend = name\n            return name", "refute"),
+    ("has_backend: real switch instead of dry run", H, "            cls.set_backend(name, dryrun=True)\n            return True", "            cls.set_backend(name)\n            return True", "refute"),
+    ("_set_backend: unavailable backend accepted", H, "        if ok is False:\n            raise exc.MissingBackendError(f\"{cls.name}: backend not available: {name}\")", "        if ok is None:\n            raise exc.MissingBackendError(f\"{cls.name}: backend not available: {name}\")", "refute"),
+]
+
+# ---- typestate between a loader and its user: bcrypt's pure-python backend -----------------------------------
+B = "passlib/handlers/bcrypt.py"
+
+
+def _import_hook(it, name):
+    from pyvc.values import SModule
+    from pyvc.ops import _module_file
+    f = _module_file(name)
+    if f is None:
+        from pyvc.values import Unsupported
+        raise Unsupported(f"import {name}")
+    return SModule(name, {"__file__": f})
+
+
+def _builtin_setup(it, args):
+    from pyvc.values import SModule
+    env_val = Union(NoneT(), Const("1"), Const("0"), Const("true")).make(it, "PASSLIB_BUILTIN_BCRYPT")
+    it.genv.vars["os"] = SModule("os", {"environ": SObj("environ", fields={"get": SStub(lambda i, a, k: env_val, "os.environ.get")})})
+    it.genv.vars["_builtin_bcrypt"] = None
+    args["mixin_cls"].fields["_finalize_backend_mixin"] = SStub(lambda i, a, k: SBool(z3.Bool("finalize_ok")), "_finalize_backend_mixin")
+    return {"env_val": env_val}
+
+
+CONTRACTS.append(Contract(
+    "bcrypt._BuiltinBackend._load_backend_mixin", f"{B}::_BuiltinBackend._load_backend_mixin",
+    params={"mixin_cls": Obj(is_class=True), "name": Const("builtin"), "dryrun": Bool()},
+    setup=_builtin_setup,
+    globals={"__import__": _import_hook, "log": SObj("log", fields={"debug": SStub(lambda i, a, k: None, "log.debug")})},
+    ensures=[
+        ("a loader that reports success has bound the routine its _calc_checksum calls", lambda it, env: z3.Implies(it.to_zbool(it.truth(env.lookup("result"))), z3.BoolVal(it.genv.vars.get("_builtin_bcrypt") is not None))),
+        ("not enabled through the environment: reported unavailable", "implies(env_val is None or env_val == '0', result is False)"),
+    ],
+    descr="PASSLIB_BUILTIN_BCRYPT unset / '0' / '1' / 'true'; backend self-test free to pass or fail",
+))
+
+MUTANTS.append(("bcrypt builtin loader forgets to import raw_bcrypt", B, "        global _builtin_bcrypt\n        from passlib.crypto._blowfish import raw_bcrypt as _builtin_bcrypt\n", "        global _builtin_bcrypt\n", "refute", "_BuiltinBackend"))
